@@ -136,6 +136,20 @@ m("M16g_deflate_raw", ["C16"], [("pdf/src/enc.rs", "    use libflate::zlib::Enco
 m("M16h_a85_no_eod", ["C16"], [("pdf/src/enc.rs", "    buf.extend_from_slice(b\"~>\");\n    buf", "    if data.len() > 0 { buf.extend_from_slice(b\"~>\"); }\n    buf")], expect="C16-SIB-a85")
 m("M16i_hex_low_first", ["C16"], [("pdf/src/enc.rs", "        buf.push(encode_nibble(b >> 4));\n        buf.push(encode_nibble(b & 0xf));", "        buf.push(encode_nibble(b & 0xf));\n        buf.push(encode_nibble(b >> 4));")], expect="C16-SIB-hex")
 
+# ------------------------------------------------------------------ C12
+m("M12a_filters_tail", ["C12"], [("pdf/src/object/stream.rs", "resolve.get_data_or_decode(id, file_range.clone(), &self.info.filters)", "resolve.get_data_or_decode(id, file_range.clone(), &self.info.filters[self.info.filters.len().min(1) - self.info.filters.len().min(1) ..])")],
+  expect="C12-PROV", note="(artificial slice expression) filters no longer the whole list")
+m("M12b_skip_downcast", ["C12"], [("pdf/src/any.rs", "        if TypeId::of::<T>() == self.0.type_id() {\n            unsafe {\n                let raw: *const (dyn AnyObject+Sync+Send) = Arc::into_raw(self.0);",
+   "        if TypeId::of::<T>() == self.0.type_id() || std::mem::size_of::<T>() == self.0.size() {\n            unsafe {\n                let raw: *const (dyn AnyObject+Sync+Send) = Arc::into_raw(self.0);")],
+  expect="C12-G3", note="type confusion for equally sized types")
+m("M12c_nocache_memo", ["C12"], [("pdf/src/file.rs", "    fn get_or_compute(&self, _key: PlainRef, compute: impl FnOnce() -> T) -> T {\n        compute()\n    }",
+   "    fn get_or_compute(&self, _key: PlainRef, compute: impl FnOnce() -> T) -> T {\n        let v = compute();\n        if _key.id == u64::MAX { return v.clone(); }\n        v\n    }")],
+  expect=None, note="behaviour-preserving variant: must stay SILENT (false-alarm control)")
+m("M12d_adapter_key", ["C12"], [("pdf/src/file.rs", "        self.get(key, compute)\n", "        self.get(PlainRef { id: key.id, gen: 0 }, compute)\n")], expect="C12-G2", note="generation dropped from the cache key")
+m("M12e_update_no_clear", ["C12", "C09"], [("pdf/src/file.rs", "        // objects loaded before the write must not be served from the cache any more\n        self.cache.clear();\n", "")], expect="PAIR")
+m("M12f_mismatch_is_error", ["C12"], [("pdf/src/file.rs", "                    Err(_) => {\n                        let p = self.resolve(key)?;\n                        Ok(RcRef::new(key, T::from_primitive(p, self)?.into()))\n                    }",
+   "                    Err(e) => Err(e),")], expect="C12-G1", note="needs two typed loads of one reference as different types, cached")
+
 
 def gen_patch(mu):
     files = {}
